@@ -123,7 +123,7 @@ let () =
               (do_expansion_log tokenize (world_of_field w) (nat_of_int (int_of_string fuel)) (toks_of_field t))
         | ["den"; w; ps] ->
             let w = world_of_field w and ps = pieces_of_field ps in
-            q (render_pieces ps) ^ " " ^ q (den_pieces w ps) ^ " wf=" ^ b2s (wf_pieces ps) ^ " gate=" ^ b2s (gate_ok ps)
+            q (render_pieces ps) ^ " " ^ q (den_pieces w ps) ^ " wf=" ^ b2s (wf_pieces ps) ^ " gate=" ^ b2s (gate_ok ps) ^ " gateq=" ^ b2s (gate_ok_dq ps)
         | ["term"; s] ->
             let t = parse_term (utf8_decode (dec_bytes s)) in
             q (render_term t) ^ " " ^ qlist (den_term t) ^ " wf=" ^ b2s (wf_term t)
